@@ -1,6 +1,6 @@
 (* Properties_C19 — object search is sound and complete.  Statements only. *)
 From Coq Require Import List NArith Bool.
-From SoftHSM Require Import Gen_Const Gen_Pure Defs Core AccessFacts StepFacts Invariants HandleFacts FindFacts.
+From SoftHSM Require Import Gen_Const Gen_Pure Defs Core AccessFacts StepFacts Invariants HandleFacts FindFacts Gen_Entry EntryModel.
 Import ListNotations.
 Local Open Scope N_scope.
 
@@ -53,3 +53,28 @@ Print Assumptions C19_batches_partition.
 Theorem C19_ascending_NoDup : forall l, ascending l -> NoDup l.
 Proof. exact ascending_NoDup. Qed.
 Print Assumptions C19_ascending_NoDup.
+
+Theorem C19_findinit_code_passes_model_public : forall (s : state) (h : N) (x : session) (rest : bool -> N) (ptr cnt : N),
+  (ptr <> 0 \/ cnt = 0) ->
+  C_FindObjectsInit.app (findinit_env s h x rest ptr cnt)
+  = if negb (s_op x =? SESSION_OP_NONE) then CKR_OPERATION_ACTIVE else rest (model_public (sess_state s x)).
+Proof. exact findinit_code_passes_model_public. Qed.
+Print Assumptions C19_findinit_code_passes_model_public.
+
+Theorem C19_findinit_model_is_code : forall (s : state) (h : N) (x : session) (tm : template) (prio : list bytes),
+  st_init s = true -> get_session s h = Some x ->
+  negb (s_op x =? SESSION_OP_NONE) = true ->
+  rv_of (snd (step s (OFindInit h tm prio))) = Some (C_FindObjectsInit.app (findinit_env s h x (fun _ => CKR_OK) 1 0)).
+Proof. exact findinit_model_is_code. Qed.
+Print Assumptions C19_findinit_model_is_code.
+
+Theorem C19_findinit_model_uses_public : forall (s : state) (h : N) (x : session) (tm : template) (prio : list bytes),
+  st_init s = true -> get_session s h = Some x -> (s_op x =? SESSION_OP_NONE) = true ->
+  forallb (fun e => match te_val e with Some b => blen b =? te_len e | None => te_len e =? 0 end) tm = true ->
+  step s (OFindInit h tm prio)
+  = match find_loop (tctx_of s (s_tok x)) (model_public (sess_state s x)) (s_tok x) h tm (order_cands prio (candidates s (s_tok x))) s [] with
+    | None => (s, RUnmodelled)
+    | Some (s1, hs) => (upd_session s1 h (fun x => set_s_op x SESSION_OP_FIND hs), RRv CKR_OK)
+    end.
+Proof. exact findinit_model_uses_public. Qed.
+Print Assumptions C19_findinit_model_uses_public.
